@@ -88,8 +88,8 @@ package airgapped
 //@ func (*Machine).decryptDataFromParticipant
 //@   safety C18
 //@   safetykinds nil dereference, index out of range, slice bounds
-//@   requires am != nil && am.baseSuite != nil
-//@   modifies *
+//@   requires am != nil
+//@   pure
 
 // a replay re-executes the logged operations in log order without logging them again (several restarts in one
 // ceremony must not make the log grow)
